@@ -7,8 +7,11 @@ import subprocess
 import engine as E
 
 VERIF = E.VERIF
-UNIT_TOOL = {"field": "field", "strip": "parser"}           # unit -> tools/replay/<dir>
-PROP_BOUNDED = {"C16": ["field"], "C01": ["field", "parser"], "C05": ["parser"], "C04": ["parser"]}
+UNIT_TOOL = {"field": "field", "strip": "parser", "valueops": "ps", "degree": "ps"}
+# engine name -> (tool dir, argument prefix)
+ENGINES = {"field": ("field", ["bounded"]), "parser": ("parser", ["bounded"]), "valueops": ("ps", ["bounded", "valueops"]), "degree": ("ps", ["bounded", "degree"]), "degree_expr": ("ps", ["bounded", "degree_expr"])}
+UNIT_ENGINE = {"field": "field", "strip": "parser", "valueops": "valueops", "degree": "degree"}           # unit -> tools/replay/<dir>
+PROP_BOUNDED = {"C16": ["field"], "C01": ["field", "parser"], "C05": ["parser"], "C04": ["parser"], "C06": ["valueops"], "C07": ["degree", "degree_expr"]}
 
 
 def _build(tool):
@@ -51,28 +54,29 @@ def _run(tool, args, timeout=900):
 
 
 def bounded(prop, unit_names, tier, seed):
-    tools = [t for t in PROP_BOUNDED.get(prop, []) if t in {UNIT_TOOL.get(u) for u in unit_names}]
-    if not tools:
+    engines = list(PROP_BOUNDED.get(prop, []))
+    if not engines:
         return None
     out = {"label": "bounded (never counted as proved)", "engines": [], "violations": [], "evaluations": 0, "distinct_nontrivial": 0}
-    for t in tools:
+    for eng in engines:
+        t, prefix = ENGINES[eng]
         try:
-            p = _run(t, ["bounded", tier, seed])
+            p = _run(t, prefix + [tier, seed])
         except subprocess.TimeoutExpired:
-            out["engines"].append({"tool": t, "error": "bounded engine timed out"})
+            out["engines"].append({"tool": eng, "error": "bounded engine timed out"})
             continue
         try:
             j = json.loads(p.stdout)
         except Exception:
-            out["engines"].append({"tool": t, "error": (p.stderr or p.stdout)[-800:]})
+            out["engines"].append({"tool": eng, "error": (p.stderr or p.stdout)[-800:]})
             continue
         out["violations"] += j.get("violations", [])
         out["evaluations"] += j.get("evaluations", 0)
         out["distinct_nontrivial"] += j.get("distinct_nontrivial", 0)
         j.pop("violations", None)
-        out["engines"].append(dict(j, tool=t))
+        out["engines"].append(dict(j, tool=eng))
         # stub validation: the trusted BigInt contracts against the real crate
-        if t == "field":
+        if eng == "field":
             n = 200000 if tier == "thorough" else 2000
             q = _run(t, ["stubcheck", n, seed])
             try:
@@ -100,10 +104,11 @@ def bounded(prop, unit_names, tier, seed):
 
 
 def find_witness(unit_name, failed_obs, tier):
-    t = UNIT_TOOL.get(unit_name)
-    if not t:
+    eng = UNIT_ENGINE.get(unit_name)
+    if not eng:
         return None
-    p = _run(t, ["bounded", "thorough" if tier == "thorough" else "quick", 0])
+    t, prefix = ENGINES[eng]
+    p = _run(t, prefix + ["thorough" if tier == "thorough" else "quick", 0])
     j = json.loads(p.stdout)
     fns = {o.get("fn") for o in failed_obs}
     for v in j.get("violations", []):
